@@ -38,9 +38,10 @@ def _alphabets(seed, n, dist, tier):
     from mc.common import rng_for
     rng = rng_for(seed, 'c03', n)
     letters = 4 if n <= 5 else 3
-    base_x = [[0, 1, 2, 5], [-3, 0, 1, 4], [0, 1, 3, 12]]          # last one is dyadic*8 (scaled by 1/8 for float storage)
+    base_x = [[0, 1, 2, 5], [-3, 0, 1, 4], [0, 1, 3, 12]]          # third one is dyadic*8 (scaled by 1/8 for float storage)
     extra = sorted(rng.choice(16, letters, replace=False).tolist())
-    xs = [a[:letters] for a in base_x] + [extra]
+    wide = [0, 100, 200, 250]                                      # exactly representable in every storage dtype incl. float16, but its squares
+    xs = [a[:letters] for a in base_x] + [extra, wide[:letters]]   # and sums are NOT representable in float16: storage must be promoted first
     ys = [[0, 1, 2, 3][:letters], sorted(rng.choice(8, letters, replace=False).tolist())] if dist != 'dpa' else [[0, 1]]
     return xs, ys
 
@@ -65,8 +66,8 @@ def run_shard(shard, ctx):
     tol = TOL[prec]
     mk = {'cpa': scared.CPADistinguisher, 'alt': scared.CPAAlternativeDistinguisher, 'dpa': scared.DPADistinguisher}[dist]
     xs, ys = _alphabets(seed, n, dist, tier)
-    tdtypes = ['uint8', 'int8', 'int16', 'uint16', 'int32', 'float32', 'float64'] if tier == 'thorough' or n <= 4 else ['uint8', 'int16', 'float32', 'float64']
-    ddtypes = ['uint8'] if dist == 'dpa' else (['uint8', 'uint16', 'int16', 'int32'] if tier == 'thorough' else ['uint8', 'int16'])
+    tdtypes = ['uint8', 'int8', 'int16', 'uint16', 'int32', 'float16', 'float32', 'float64'] if tier == 'thorough' or n <= 4 else ['uint8', 'int16', 'float16', 'float32', 'float64']
+    ddtypes = ['uint8'] if dist == 'dpa' else (['uint8', 'uint16', 'int16', 'int32', 'float16'] if tier == 'thorough' else ['uint8', 'int16', 'float16'])
     seen_def = seen_undef = 0
     for ax_i, ax in enumerate(xs):
         X = all_columns(ax, n)                       # (n, |A|^n) python ints
